@@ -54,7 +54,7 @@ def user_alphabet(rng):
 def reduce_ref(seq, size, ua):
     """Group label per residue (entropy needs the partition only, not the representatives)."""
     if ua is not None:
-        return [ua[c] for c in seq], len(set(ua.values()))
+        return [ua[c] for c in seq], len(set(ua[a] for a in M.AA))
     return [M.alphabet_group(size, c) for c in seq], size
 
 
@@ -88,10 +88,20 @@ def judge(case, rep, S):
     if rng.random() < 0.2:
         SALT.salt(S, obj, seq, rng, rep, cheap=N > 100)
     prev_user = False
+    shared_ua = None
     for cfg in range(8):
         t = rng.choice(["WF", "LC", "LZW"])
         tspell = t if rng.random() < 0.6 else rng.choice([t.lower(), t.capitalize()])
         ua = user_alphabet(rng) if rng.random() < 0.35 else None
+        if ua is not None and rng.random() < 0.4:
+            # the caller keeps ONE dictionary and edits it in place between calls
+            if shared_ua is None:
+                shared_ua = ua
+            else:
+                shared_ua.clear()
+                shared_ua.update(ua)
+                rep.cnt("user_alphabet_edited_in_place")
+            ua = shared_ua
         size = rng.choice(SIZES)
         w = rng.randint(1, N) if rng.random() < 0.8 else rng.choice([1, N, min(N, 10), max(1, N - 1)])
         if case.get("long"):
